@@ -149,6 +149,6 @@ package store
 //@   serves C04 C01 C11
 //@   loop 1 invariant true
 //@   requires MInv(s)
-//@   ensures assumed[depends on the trusted ordered enumeration orderedBins] found: rank < MTot(s) ==> in32(result) && MView(s, result) > 0.0 && Tot(MCumArr(s, result)) > max(rank, 0.0) && Tot(MCumArr(s, result - 1)) <= max(rank, 0.0)
+//@   ensures assumed[depends on the trusted ordered enumeration orderedBins] found: max(rank, 0.0) < MTot(s) ==> in32(result) && MView(s, result) > 0.0 && Tot(MCumArr(s, result)) > max(rank, 0.0) && Tot(MCumArr(s, result - 1)) <= max(rank, 0.0)
 //@   ensures assumed[depends on the trusted ordered enumeration orderedBins] clamp: rank >= MTot(s) && MTot(s) > 0.0 ==> has(s.counts, result) && (forall k int :: has(s.counts, k) ==> k <= result)
 //@ fun MCumArr(s *SparseStore, k int) array_real := lambda j int :: j <= k ? MView(s, j) : 0.0
